@@ -1407,6 +1407,95 @@ def gen_o1():
 
 
 # ----------------------------------------------------------------------------------------
+# G8: hidden state — the model is a set of pure functions of their arguments; the code must not keep state between
+#     calls in module-level objects (memo tables, caches) or through `global`
+# ----------------------------------------------------------------------------------------
+
+MUTATORS = ("append", "update", "setdefault", "clear", "pop", "popitem", "extend", "insert", "add", "remove",
+            "discard", "sort", "reverse", "fill", "resize", "put", "itemset", "__setitem__", "appendleft")
+
+
+def gen_purity():
+    found = []
+    for path in sorted(SRC.rglob("*.py")):
+        rel = str(path.relative_to(SRC))
+        if rel.startswith("utils/rotation_dev"):
+            continue
+        mod = parse(rel)
+        # names bound at module level to something that is not a function / class / import
+        mod_names = {}
+        for st in mod.body:
+            targets = []
+            if isinstance(st, ast.Assign):
+                targets = [t for t in st.targets if isinstance(t, ast.Name)]
+                val = st.value
+            elif isinstance(st, ast.AnnAssign) and isinstance(st.target, ast.Name) and st.value is not None:
+                targets = [st.target]
+                val = st.value
+            for t in targets:
+                immutable = isinstance(val, ast.Constant) or (
+                    isinstance(val, ast.Tuple) and all(isinstance(e, ast.Constant) for e in val.elts))
+                mod_names[t.id] = (st.lineno, immutable)
+        for fn in ast.walk(mod):
+            if not isinstance(fn, (ast.FunctionDef, ast.AsyncFunctionDef)):
+                continue
+            for d in fn.decorator_list:
+                dn = ast.unparse(d)
+                if "cache" in dn or "memo" in dn:
+                    found.append((rel, fn.lineno, f"{fn.name}: decorator {dn}"))
+            local_stores = {n.id for n in ast.walk(fn) if isinstance(n, ast.Name) and isinstance(n.ctx, ast.Store)}
+            local_stores |= {a.arg for a in fn.args.args + fn.args.kwonlyargs}
+            globals_decl = set()
+            for n in ast.walk(fn):
+                if isinstance(n, (ast.Global, ast.Nonlocal)):
+                    globals_decl |= set(n.names)
+                    found.append((rel, n.lineno, f"{fn.name}: {'global' if isinstance(n, ast.Global) else 'nonlocal'} "
+                                                 f"{', '.join(n.names)}"))
+            for n in ast.walk(fn):
+                base = None
+                if isinstance(n, ast.Subscript) and isinstance(n.ctx, (ast.Store, ast.Del)):
+                    base = n.value
+                elif isinstance(n, ast.Attribute) and isinstance(n.ctx, (ast.Store, ast.Del)):
+                    base = n.value
+                elif isinstance(n, ast.Call) and isinstance(n.func, ast.Attribute) and n.func.attr in MUTATORS:
+                    base = n.func.value
+                while isinstance(base, (ast.Subscript, ast.Attribute)):
+                    base = base.value
+                if isinstance(base, ast.Name) and base.id in mod_names and (
+                        base.id not in local_stores or base.id in globals_decl):
+                    found.append((rel, n.lineno, f"{fn.name}: writes to module-level `{base.id}`"))
+            # mutable default arguments that are mutated
+            for a, dflt in zip(reversed(fn.args.args), reversed(fn.args.defaults)):
+                if isinstance(dflt, (ast.Dict, ast.List, ast.Set)) or (
+                        isinstance(dflt, ast.Call) and ast.unparse(dflt.func) in ("dict", "list", "set")):
+                    found.append((rel, fn.lineno, f"{fn.name}: mutable default argument `{a.arg}`"))
+        # function attributes used as storage (f.cache = ...)
+        fnames = {st.name for st in mod.body if isinstance(st, (ast.FunctionDef, ast.ClassDef))}
+        for n in ast.walk(mod):
+            if isinstance(n, ast.Attribute) and isinstance(n.ctx, ast.Store) and isinstance(n.value, ast.Name) \
+                    and n.value.id in fnames:
+                found.append((rel, n.lineno, f"attribute `{n.value.id}.{n.attr}` used as storage"))
+        # class-level mutable attributes
+        for cls in [st for st in mod.body if isinstance(st, ast.ClassDef)]:
+            for st in cls.body:
+                if isinstance(st, (ast.Assign, ast.AnnAssign)) and getattr(st, "value", None) is not None \
+                        and isinstance(st.value, (ast.Dict, ast.List, ast.Set, ast.Call)):
+                    found.append((rel, st.lineno, f"class {cls.name}: class-level mutable attribute"))
+    found = sorted(set(found))
+    rec("(all modules)", None,
+        "module-level / class-level / function-level hidden state written by functions", [list(f) for f in found])
+    out = ["/- REGENERATED by tools/extract.py from every module of src/symfc — do not edit. -/",
+           "namespace Symfc.Gen", "",
+           "/-- (file, line, what): every place where a function keeps state that survives the call — writes to a",
+           "    module-level object, `global`/`nonlocal`, cache decorators, function attributes, class-level mutable",
+           "    attributes, mutable default arguments. The model is a set of pure functions; this list must be empty. -/",
+           "def hiddenState : List (String × Nat × String) := [" +
+           ", ".join(f'("{a}", {b}, "{c}")' for a, b, c in found) + "]",
+           "", "end Symfc.Gen"]
+    return "\n".join(out) + "\n"
+
+
+# ----------------------------------------------------------------------------------------
 
 GENERATORS = {
     "PermTables": gen_perm_tables,
@@ -1421,6 +1510,7 @@ GENERATORS = {
     "Eig": gen_eig,
     "SumRule": gen_sumrule,
     "O1": gen_o1,
+    "Purity": gen_purity,
 }
 
 
